@@ -330,7 +330,19 @@ func newMerged() *merged {
 }
 
 // explore runs chunks [0,total) (or until exhausted in enumerate mode) on a pool of workers.
+func matchesKnown(known []knownFinding, f FailureRec) bool {
+	for _, k := range known {
+		if k.Status == "open" && k.Property == f.Property && k.Oracle == f.Oracle {
+			if re, err := regexp.Compile(k.Signature); err == nil && re.MatchString(f.Msg) {
+				return true
+			}
+		}
+	}
+	return false
+}
+
 func explore(bin, scratch string, sp *spec, prop, tier, mode string, seed uint64, total, workers, recheck int, m *merged) {
+	known := loadKnown()
 	chunk := sp.Chunk
 	if chunk == 0 {
 		chunk = 200
@@ -379,10 +391,14 @@ func explore(bin, scratch string, sp *spec, prop, tier, mode string, seed uint64
 				}
 				// stop early once enough failures are in hand
 				classes := map[string]bool{}
+				unknown := 0
 				for _, f := range m.Failures {
-					classes[f.Property+"/"+f.Oracle] = true
+					if !matchesKnown(known, f) {
+						classes[f.Property+"/"+f.Oracle] = true
+						unknown++
+					}
 				}
-				if len(m.Failures) >= 40 || len(classes) >= 4 {
+				if unknown >= 40 || len(classes) >= 4 {
 					stop = true
 				}
 				mu.Unlock()
